@@ -1,0 +1,23 @@
+//go:build verif
+
+package gitlab
+
+// Contracts for the GitLab importer (property C16).
+// Comment-only file: it is compiled only with -tags verif and contains no code.
+
+// Whatever text the tracker holds, turning a note into an event must not crash.
+//@ func getNewTitle
+//@   props C16
+//@   nopanic
+//@ func NoteEvent.Kind
+//@   props C16
+//@   nopanic
+//@ func NoteEvent.Title
+//@   props C16
+//@   nopanic
+//@ func LabelEvent.Kind
+//@   props C16
+//@   nopanic
+//@ func StateEvent.Kind
+//@   props C16
+//@   nopanic
